@@ -1366,6 +1366,13 @@ func (mgr *Manager) UpdateTag(name string, operation UpdateTagOperation) error {
 				}
 				newTag := *tag
 				newTag.Matches = tag.Matches.Copy()
+				if !tag.Uncertain.IsZero() {
+					// the matches of a pending tag are not complete (none are known after its list was replaced),
+					// the list itself is what the changes are applied to
+					if ids, ok := tag.Conditions.StreamIDs(mgr.nextStreamID); ok {
+						newTag.Matches = ids
+					}
+				}
 				newTag.Uncertain = tag.Uncertain.Copy()
 				// the streams that are pending already stay pending, the ones changed here are decided right away
 				pending := tag.Uncertain
